@@ -370,12 +370,18 @@ def plan_for(p, i, rd, rng, thorough):
     src_s = with_cuts(p.stmts, cuts)
     src_p = with_cuts(p.stmts, cuts_p)
     fibb = FIB[(i + rd * 7) % len(FIB)] if r.chance(0.5) else r.choice(FIB[:12])
+    rndb = log_budget(r)
+    if p.spin:
+        # the busy loop costs about 45 units per round: budgets up to that expire inside the script
+        big = [b for b in FIB if 200 <= b <= 40 * p.spin]
+        fibb = r.choice(big)
+        rndb = min(rndb, 40 * p.spin) if r.chance(0.5) else r.range(big[0], big[-1])
     three = lambda: {"budgets": [r.choice(FIB[:10]), log_budget(r), r.choice(FIB[:6])]}
     plan = []
     if rd == 0:
         plan.append(("base", src_s, {}))
     plan.append(("async", src_s, {"budgets": [fibb]}))
-    plan.append(("async", src_s, {"budgets": [log_budget(r)]}))
+    plan.append(("async", src_s, {"budgets": [rndb]}))
     for k3 in (["split", "rep", "split_async"] if thorough else [("split", "rep", "split_async")[(i + rd) % 3]]):
         plan.append((k3, src_s, three()))
     plan.append(("phased", src_p, {}))
